@@ -9,3 +9,38 @@ Definition C13_rawdb_full : Prop :=
 Theorem C13_inv_init : forall min_len, Inv (init min_len).
 Proof. exact inv_init. Qed.
 Print Assumptions C13_inv_init.
+
+From Anydb Require Import Rawdb.AllocErr Rawdb.InvStep Rawdb.InvFinal.
+
+(* FULL: every operation, Retain included.  (History: the model of retain_regions before fix
+   881ef86 removed regions one by one and stopped at the first held one; the statement was then
+   refuted by `Retain []` after `Create 1 false; Create 2 true` — see C13_example_retain for the
+   same input on the repaired code.) *)
+Theorem C13_rawdb : C13_rawdb_full.
+Proof. exact c13_rawdb. Qed.
+Print Assumptions C13_rawdb.
+
+(* old names, now corollaries of C13_rawdb *)
+Theorem C13_rawdb_partial :
+  forall s o s' e, Inv s -> op_defined s o -> step s o = AErr s' e -> e <> RegionMetadataUnwritten -> s' = s.
+Proof. exact c13_rawdb_defined. Qed.
+Print Assumptions C13_rawdb_partial.
+
+Theorem C13_rawdb_nonretain :
+  forall s o s' e, Inv s -> (forall keep, o <> Retain keep) ->
+    step s o = AErr s' e -> e <> RegionMetadataUnwritten -> s' = s.
+Proof. exact c13_rawdb_nonretain. Qed.
+Print Assumptions C13_rawdb_nonretain.
+
+(* the hypotheses are satisfiable: refused requests on reachable states *)
+Theorem C13_example :
+  let s := run (init 0) [Create 2 true] in
+  Inv s /\ exists s', step s (Remove 2) = AErr s' RegionStillReferenced.
+Proof. exact ex_c13. Qed.
+Print Assumptions C13_example.
+
+Theorem C13_example_retain :
+  let s := run (init 0) [Create 1 false; Create 2 true] in
+  Inv s /\ step s (Retain []) = AErr s RegionStillReferenced.
+Proof. exact ex_c13_retain. Qed.
+Print Assumptions C13_example_retain.
